@@ -25,12 +25,20 @@ def parsePairs (j : Json) : R (List (String × List Tok)) := do
 
 def lookupD (d : List (String × List Tok)) (k : String) : List Tok := (dictGet d k).getD []
 
+/-- A store comes either by name (`data`: `[[name, cells]…]`) or as it is in memory (`dict`: `[[storage key,
+    cells]…]`, the ndarray entries of the instance `__dict__` in insertion order): then the model reads every series
+    through `getItem` (`index` membership, `storageKey`). -/
 def parseStore (j : Json) : R (Store Tok Tok) := do
   let span ← strList (← obj j "span")
   let index ← strList (← obj j "index")
   let names ← strList (← obj j "names")
-  let data ← parsePairs (← obj j "data")
-  pure ⟨span, index, names, lookupD data⟩
+  match j.getObjVal? "dict" with
+  | .ok d =>
+    let dict ← parsePairs d
+    pure (Obj.toStore ⟨span, index, names, dict⟩)
+  | .error _ =>
+    let data ← parsePairs (← obj j "data")
+    pure ⟨span, index, names, lookupD data⟩
 
 def jStrs (xs : List String) : Json := Json.arr (xs.map Json.str).toArray
 
@@ -94,7 +102,8 @@ def handleFromTable (j : Json) : R String := do
   | none => pure "\"raises\""
   | some m =>
     pure (Json.mkObj [("span", jStrs m.span), ("names", jStrs m.names),
-                      ("data", Json.arr (m.index.map fun k => Json.arr #[Json.str k, jStrs (m.data k)]).toArray)]).compress
+                      ("data", Json.arr (m.index.map fun k => Json.arr #[Json.str k, jStrs (m.data k)]).toArray),
+                      ("dict", Json.arr (m.toObj.dict.map fun p => Json.arr #[Json.str p.1, jStrs p.2]).toArray)]).compress
 
 def optStr (j : Json) : R (Option String) :=
   match j with
